@@ -455,7 +455,13 @@ def run_relay_check(work, prop, tier, replay=None):
     conc = None
     if prop in ("C01", "C02", "C03", "C07", "C10", "C12") and not replay:
         import conc_check
-        conc = conc_check.run_conc(work, prop, tier)
+        try:
+            conc = conc_check.run_conc(work, prop, tier)
+        except Inconclusive as e:
+            if not fails:
+                raise
+            work.log("schedules stage skipped: %s" % e)
+            conc = dict(scenarios=0, summaries=[], outcomes=0, fails=[])
         work.log("schedules: %d scenarios, %d schedules on the real handlers, %d distinct outcomes, %d failing" % (
             conc["scenarios"], sum(x["schedules"] for x in conc["summaries"]), conc["outcomes"], len(conc["fails"])))
         for fr in conc["fails"]:
@@ -497,14 +503,20 @@ def run_relay_check(work, prop, tier, replay=None):
         # lock-grain specification (RelayConc.tla): exhaustive TLC, witnesses of the listed findings forced on the real
         # handlers, generated and random schedules validated by RelayConcTrace
         import relayconc_check
-        rconc = relayconc_check.stage(work, tier, work.seed, variants=(False, True, "odal") if prop in ("C01", "C02") else (False,), witnesses=(prop == "C01"))
-        for f in rconc["fails"]:
+        try:
+            rconc = relayconc_check.stage(work, tier, work.seed, variants=(False, True, "odal") if prop in ("C01", "C02") else (False,), witnesses=(prop == "C01"))
+        except Inconclusive as e:
+            if not fails:
+                raise
+            work.log("lock-grain stage skipped: %s" % e)
+            rconc = None
+        for f in (rconc["fails"] if rconc else []):
             if prop not in relayconc_check.OWNER.get(f["inv"], []):
                 continue
             hid = "relayconc-%s" % f["cid"]
             fails.append(dict(hid=hid, sig=dict(inv=f["inv"], step="RelayConc", kind=str(f["cid"]).split("-")[0], ret=f.get("ret", "-")), rec=dict(i=-1)))
             hist_by_id[hid] = dict(hid=hid, stage="RelayConc (harness l1m)", invariant=f["inv"], scenario=f.get("scenario"), note=f.get("note"))
-        if prop == "C01":
+        if prop == "C01" and rconc:
             for k in rconc["known"]:
                 for sym in k["symptoms"]:
                     hid = "relayconc-%s" % k["cid"]
